@@ -61,7 +61,9 @@ def run(rep, tier, seed):
     # abandoned / early-closed sessions: ownership at the end of every interleaving
     rg = [s for s in SC.read_grid(tier) if s["params"]["NREADS"] >= 0 or s["name"] in ("r_aligned", "r_t115")]
     SC.model_and_replay(rep, "r", rg, "c13_r_" + tier, ["Accounted", "DeadlockFree"], liveness=False, variant="asan", key="read")
-    SC.model_and_replay(rep, "w", SC.write_grid(tier)[:3], "c13_w_" + tier, ["AllDeleted", "DeadlockFree"],
+    # (incl. the session that writes a restore-point container: the one class the write path treats specially)
+    wg = SC.write_grid(tier)
+    SC.model_and_replay(rep, "w", wg[:3] + [s for s in wg if s["name"] == "w_t115"], "c13_w_" + tier, ["AllDeleted", "DeadlockFree"],
                         liveness=False, variant="asan", key="write")
     rep.cov["distinct_nontrivial"] = sum(m["edges"] for m in rep.cov.get("m1", []))
     rep.assumptions += ["good()/eof() are compared only while a read session is open (they race with the worker by "
